@@ -16,9 +16,11 @@
     calc userhash <algo3> <user> <realm>            -> <hex>
     calc userdigest <algo3> <user> <realm> <pw>     -> <hex>
     state                                            -> n=<size> <nc>:<mask>:<nonce> …
+    failmalloc <0|1>                                 -> ok     (1: every malloc inside the following check
+                                                                actions returns NULL; `Mhd.Model.DauthAlloc`)
   (all strings hex, "-" = empty; numbers decimal)
 -/
-import Mhd.Model.Dauth
+import Mhd.Model.DauthAlloc
 import Driver.Common
 open Mhd.Dauth Mhd.Auth Mhd.Gen.Dauth Mhd.Gen.Auth Driver
 
@@ -28,6 +30,8 @@ structure DSt where
   now : Nat
   addr : List UInt8
   conn : Bool
+  /-- `failmalloc`: every `malloc` of a check action returns NULL -/
+  failMalloc : Bool := false
 
 def initSt : DSt :=
   { cfg := ⟨0, [], Mhd.Gen.Nonce.defTimeout, Mhd.Gen.Nonce.defMaxNc, true⟩, tbl := [], now := 0, addr := [], conn := false }
@@ -98,7 +102,7 @@ def action (s : DSt) (r : Req) (ws : List String) : Option (DSt × String) :=
       match secret? with
       | none => none
       | some secret =>
-        let x := digestCheck s.cfg s.tbl s.now r ⟨rl, u, secret, t, m, q, ma⟩
+        let x := digestCheckA s.failMalloc s.cfg s.tbl s.now r ⟨rl, u, secret, t, m, q, ma⟩
         some ({ s with tbl := x.1 }, "r=" ++ x.2.name)
     | _, _, _, _, _, _, _ => none
   | [kind, realm, user, sec, tmo] =>
@@ -110,7 +114,7 @@ def action (s : DSt) (r : Req) (ws : List String) : Option (DSt × String) :=
       match secret? with
       | none => none
       | some secret =>
-        let x := legacyCheck s.cfg s.tbl s.now r rl u secret t algMd5
+        let x := legacyCheckA s.failMalloc s.cfg s.tbl s.now r rl u secret t algMd5
         some ({ s with tbl := x.1 }, "l=" ++ legacyName x.2)
     | _, _, _, _ => none
   | [kind, realm, user, sec, tmo, algo] =>
@@ -122,7 +126,7 @@ def action (s : DSt) (r : Req) (ws : List String) : Option (DSt × String) :=
       match secret? with
       | none => none
       | some secret =>
-        let x := legacyCheck s.cfg s.tbl s.now r rl u secret t al
+        let x := legacyCheckA s.failMalloc s.cfg s.tbl s.now r rl u secret t al
         some ({ s with tbl := x.1 }, "l=" ++ legacyName x.2)
     | _, _, _, _, _ => none
   | _ => none
@@ -135,7 +139,7 @@ def stepLine (s : DSt) (ws : List String) : DSt × List String :=
     match bind.toNat?, size.toNat?, bytesOfHex rnd, dt.toNat?, dm.toNat?, disc.toNat? with
     | some b, some n, some r, some t, some m, some dc =>
       if b ≥ 16 ∨ n > 64 ∨ t ≥ U32 ∨ m ≥ U32 ∨ dc > 2 ∨ t = 0 ∨ m = 0 then bad s
-      else ({ cfg := ⟨bindOfOption b, r, t, m, decide (dc ≥ 1)⟩, tbl := Mhd.Nonce.Table.init n, now := s.now, addr := [], conn := false }, ["ok"])
+      else ({ cfg := ⟨bindOfOption b, r, t, m, decide (dc ≥ 1)⟩, tbl := Mhd.Nonce.Table.init n, now := s.now, addr := [], conn := false, failMalloc := s.failMalloc }, ["ok"])
     | _, _, _, _, _, _ => bad s
   | ["clock", t] =>
     match t.toNat? with
@@ -162,6 +166,8 @@ def stepLine (s : DSt) (ws : List String) : DSt × List String :=
     match a3.toNat?.bind algoOf3, bytesOfHex user, bytesOfHex realm, bytesOfHex pw with
     | some a, some u, some rl, some p => (s, [hexOfBytes (userdigest a u rl p)])
     | _, _, _, _ => bad s
+  | ["failmalloc", "0"] => ({ s with failMalloc := false }, ["ok"])
+  | ["failmalloc", "1"] => ({ s with failMalloc := true }, ["ok"])
   | ["state"] => (s, [s!"n={s.tbl.length}" ++ String.join (s.tbl.map fun sl => " " ++ showSlot sl)])
   | _ => bad s
 
